@@ -7,6 +7,7 @@ import (
 	"go/build/constraint"
 	"go/format"
 	"go/token"
+	"os"
 	"strconv"
 	"strings"
 	"unicode"
@@ -440,7 +441,55 @@ func (g *Gen) c20Props(n int, names []string, doc func() string) []vh.MetavarsPr
 	return ps
 }
 
+// c20FileProbe: metavars.WriteFile / ReadFile on one path — a long file is written, a short one over it,
+// and the file read back must be the short one (and the other way round).
+func c20FileProbe(g *Gen) {
+	dir, err := os.MkdirTemp("", "c20files")
+	if err != nil {
+		return
+	}
+	defer os.RemoveAll(dir)
+	path := dir + "/vars.go"
+	long := &vh.MetavarsFile{Package: "meta"}
+	for i := 0; i < 12; i++ {
+		long.Properties = append(long.Properties, vh.MetavarsProperty{Name: fmt.Sprintf("releaseproperty%d", i), Doc: "Releaseproperty holds a fairly long description of the release.", Value: strings.Repeat("v", 40)})
+	}
+	short := &vh.MetavarsFile{Package: "meta", Properties: []vh.MetavarsProperty{{Name: "a", Value: "1"}}}
+	for step, f := range []*vh.MetavarsFile{long, short, long, short} {
+		msg := ""
+		if pn := safe(func() {
+			if err := vh.MetavarsWriteFile(path, f); err != nil {
+				msg = "write: " + err.Error()
+				return
+			}
+			back, err := vh.MetavarsReadFile(path)
+			if err != nil {
+				msg = "read: " + err.Error()
+				return
+			}
+			if back.Package != f.Package || len(back.Properties) != len(f.Properties) {
+				msg = fmt.Sprintf("file holds %d properties, written %d", len(back.Properties), len(f.Properties))
+				return
+			}
+			for i := range f.Properties {
+				if back.Properties[i] != f.Properties[i] {
+					msg = fmt.Sprintf("property %d differs: %+v vs %+v", i, back.Properties[i], f.Properties[i])
+					return
+				}
+			}
+		}); pn != "" {
+			msg = "panic: " + pn
+		}
+		g.Count("file-write-read")
+		if msg != "" {
+			g.Notes = append(g.Notes, fmt.Sprintf("VIOLATION: metavars.WriteFile then ReadFile on the same path, step %d: %s", step, msg))
+			return
+		}
+	}
+}
+
 func genC20(g *Gen) {
+	c20FileProbe(g)
 	// ---- quote ----
 	for b := 0; b < 256; b++ {
 		c20Quote(g, string([]byte{byte(b)}))
